@@ -25,6 +25,9 @@
 (*     [k |-> "err",  msg |-> code points of err.Error()]  (c |-> ExitCode  *)
 (*                    if the error type has one)                            *)
 (*     [k |-> "halt", v |-> value, c |-> code]     halt / halt_error        *)
+(*     [k |-> "dbg", v |-> value], [k |-> "stderr", v |-> value]            *)
+(*                    a call of the command's `debug` / `stderr` function   *)
+(*                    during Next() (no yield: a message on stderr)         *)
 (* The machine is deterministic once the scenario is fixed.                 *)
 (*                                                                          *)
 (* A scenario:                                                              *)
@@ -196,6 +199,14 @@ HaltDiag(ev) == IF ev.v.t = "null" THEN <<>>
                 ELSE IF ev.v.t = "str" THEN <<Exact(ev.v.s)>>
                 ELSE <<Exact(JsonText(ev.v).s \o <<10>>)>>
 
+\* cli.funcDebug: ["DEBUG:",v] compact and a newline; cli.funcStderr: v raw (string) or compact, no newline
+TDebug == <<68,69,66,85,71,58>>                                                                  \* "DEBUG:"
+IsSide(ev) == ev.k \in {"dbg", "stderr"}
+SideDiag(ev) == IF ev.k = "dbg" THEN Exact(JsonText(Arr(<<Str(TDebug), ev.v>>)).s \o <<10>>)
+                ELSE Exact(IF ev.v.t = "str" THEN ev.v.s ELSE JsonText(ev.v).s)
+DbgEv(v) == [k |-> "dbg", v |-> v]
+SerrEv(v) == [k |-> "stderr", v |-> v]
+
 \* error.go exitCodeError.Error(): the text of the error `error(v)` raises
 ErrorText(v) == TErrorColon \o (IF v.t = "str" THEN v.s ELSE JsonText(v).s)
 \* events of the oracle
@@ -313,6 +324,13 @@ PrintValue ==
   /\ events' = Tail(events)
   /\ UNCHANGED <<sc, exp, pc, opts, inputs, stderr, err, halted, exit>>
 
+\* inside iter.Next(): the query calls the command's debug / stderr function; nothing is yielded
+SideMessage ==
+  /\ pc = "values" /\ events # <<>> /\ IsSide(Head(events))
+  /\ stderr' = Append(stderr, SideDiag(Head(events)))
+  /\ events' = Tail(events)
+  /\ UNCHANGED <<sc, exp, pc, opts, inputs, stdout, outvals, lastStatus, err, halted, exit>>
+
 \* printValues: m.marshal fails (string with NUL under --raw-output0): nothing is written, no bookkeeping,
 \* the error goes back to process, which treats it like a runtime error of this input
 MarshalError ==
@@ -371,18 +389,22 @@ Done == pc = "done" /\ UNCHANGED vars
 
 Next == \/ ParseFlags \/ CheckOptions \/ ParseQuery \/ Compile
         \/ NextInput \/ InputError \/ EndOfInputs
-        \/ PrintValue \/ MarshalError \/ RuntimeError \/ HaltNow \/ HaltErrorNow \/ EndOfOutputs
+        \/ PrintValue \/ SideMessage \/ MarshalError \/ RuntimeError \/ HaltNow \/ HaltErrorNow \/ EndOfOutputs
         \/ Finish \/ Done
 
 -----------------------------------------------------------------------------
 (* 4. the property, as a function of the scenario                           *)
 (***************************************************************************)
-RECURSIVE Printed(_, _)
-\* the outputs of one run that reach stdout: everything before the first error / halt / unprintable string
-Printed(ev, o) == IF ev = <<>> \/ Head(ev).k # "val" \/ MarshalFails(Head(ev).v, o) THEN <<>>
-                  ELSE <<Head(ev).v>> \o Printed(Tail(ev), o)
-\* what ends the run
-Stop(ev, o) == LET n == Len(Printed(ev, o)) IN IF n = Len(ev) THEN [k |-> "end"] ELSE ev[n + 1]
+RECURSIVE StopIndex(_, _, _)
+\* index of the event that ends a run: the first error / halt / unprintable string; Len + 1 if the run just ends
+StopIndex(ev, o, i) ==
+  IF i > Len(ev) THEN i
+  ELSE IF IsSide(ev[i]) \/ (ev[i].k = "val" /\ ~MarshalFails(ev[i].v, o)) THEN StopIndex(ev, o, i + 1)
+  ELSE i
+RECURSIVE ValsOf(_)
+ValsOf(es) == IF es = <<>> THEN <<>> ELSE (IF Head(es).k = "val" THEN <<Head(es).v>> ELSE <<>>) \o ValsOf(Tail(es))
+RECURSIVE SideDiagsOf(_)
+SideDiagsOf(es) == IF es = <<>> THEN <<>> ELSE (IF IsSide(Head(es)) THEN <<SideDiag(Head(es))>> ELSE <<>>) \o SideDiagsOf(Tail(es))
 
 RECURSIVE Fold(_, _, _)
 \* input by input, in order: printed values, diagnostics, the status of the last error, the halt
@@ -390,8 +412,10 @@ Fold(items, o, acc) ==
   IF items = <<>> THEN acc
   ELSE LET it == Head(items) IN
     IF it.k = "err" THEN Fold(Tail(items), o, [acc EXCEPT !.diag = Append(@, InputDiag), !.failed = TRUE])
-    ELSE LET st == Stop(it.ev, o)
-             a1 == [acc EXCEPT !.out = @ \o Printed(it.ev, o)]
+    ELSE LET stop == StopIndex(it.ev, o, 1)
+             pre == SubSeq(it.ev, 1, stop - 1)                 \* what happens before the run is ended
+             st == IF stop > Len(it.ev) THEN [k |-> "end"] ELSE it.ev[stop]
+             a1 == [acc EXCEPT !.out = @ \o ValsOf(pre), !.diag = @ \o SideDiagsOf(pre)]
          IN CASE st.k = "end" -> Fold(Tail(items), o, a1)
               \* an error ends this input's outputs; later inputs are still processed
               [] st.k = "val" -> Fold(Tail(items), o, [a1 EXCEPT !.diag = Append(@, NulDiag), !.failed = TRUE])
